@@ -405,7 +405,10 @@ thread_local! {
 pub struct NK {
     pub raw: u8,
     pub gen: u32,
+    /// constant marker: bytes that never were an NK (an uninitialised slot) do not carry it
+    pub magic: u32,
 }
+pub const ND_MAGIC: u32 = 0x4E44_6B31;
 impl PartialEq for NK {
     fn eq(&self, o: &NK) -> bool {
         crate::tl::tick(crate::tl::Cb::KeyEq);
@@ -417,7 +420,7 @@ impl Clone for NK {
     fn clone(&self) -> NK {
         crate::tl::tick(crate::tl::Cb::KeyClone);
         ND_CLONES.with(|c| c.set(c.get() + 1));
-        NK { raw: self.raw, gen: self.gen + 1 }
+        NK { raw: self.raw, gen: self.gen + 1, magic: self.magic }
     }
 }
 impl Borrow<u8> for NK {
@@ -435,10 +438,16 @@ impl fmt::Debug for NK {
         write!(f, "n{}", self.raw)
     }
 }
-#[derive(Default)]
 pub struct NV {
     pub val: u32,
     pub gen: u32,
+    pub magic: u32,
+}
+impl Default for NV {
+    fn default() -> NV {
+        crate::tl::tick(crate::tl::Cb::ValDefault);
+        NV { val: 0, gen: 0, magic: ND_MAGIC }
+    }
 }
 impl PartialEq for NV {
     fn eq(&self, o: &NV) -> bool {
@@ -449,7 +458,7 @@ impl Clone for NV {
     fn clone(&self) -> NV {
         crate::tl::tick(crate::tl::Cb::ValClone);
         ND_CLONES.with(|c| c.set(c.get() + 1));
-        NV { val: self.val, gen: self.gen + 1 }
+        NV { val: self.val, gen: self.gen + 1, magic: self.magic }
     }
 }
 impl fmt::Display for NV {
@@ -478,17 +487,23 @@ impl Kind for NoDrop {
     fn kgen(k: &NK) -> u32 {
         k.gen
     }
+    fn klive(k: &NK) -> bool {
+        k.magic == ND_MAGIC
+    }
+    fn vlive(v: &NV) -> bool {
+        v.magic == ND_MAGIC
+    }
     fn vgen(v: &NV) -> u32 {
         v.gen
     }
     fn key(raw: u8) -> NK {
-        NK { raw, gen: 0 }
+        NK { raw, gen: 0, magic: ND_MAGIC }
     }
     fn qo(raw: u8) -> u8 {
         raw
     }
     fn val(x: u32) -> NV {
-        NV { val: x, gen: 0 }
+        NV { val: x, gen: 0, magic: ND_MAGIC }
     }
     fn kraw(k: &NK) -> u8 {
         k.raw
